@@ -126,7 +126,9 @@ def run_impl(case):
     out["unchanged"] = bool(numpy.array_equal(g.mat, before))
     if case["kind"] == "phased":
         # the unphased projection of the same data must give identical answers
-        u = DenseGenotypeMatrix(mat.sum(0, dtype="int8"), ploidy=int(g.ploidy))
+        from pybrops.breed.prot.gt.DenseUnphasedGenotyping import DenseUnphasedGenotyping
+        u = DenseUnphasedGenotyping().genotype(g)          # the library's own unphased projection
+        out["proj_mat_ok"] = bool(numpy.array_equal(u.mat, mat.sum(0))) and int(u.ploidy) == int(g.ploidy)
         out["proj"] = {"acount": [int(x) for x in u.acount()], "afreq": _hx(u.afreq()), "afixed": [bool(x) for x in u.afixed()],
                        "apoly": [bool(x) for x in u.apoly()], "maf": _hx(u.maf()), "meh": float(u.meh()).hex(),
                        "gtcount": u.gtcount().tolist(), "tacount": u.tacount().tolist()}
@@ -264,6 +266,7 @@ def pred(case, out):
     if not out["unchanged"]: bad.append("matrix mutated by a summary statistic")
     if "proj" in out:
         pj = out["proj"]
+        if not out.get("proj_mat_ok", True): bad.append("DenseUnphasedGenotyping projection is not the phase sum / ploidy changed")
         for k in ("acount", "afreq", "afixed", "apoly", "maf", "gtcount", "tacount"):
             if pj[k] != out[k]: bad.append("phased and unphased projection disagree on %s" % k)
         if abs(_fh(pj["meh"]) - _fh(out["meh"])) > 1e-12: bad.append("phased and unphased projection disagree on meh")
